@@ -5,7 +5,7 @@ W=$(mktemp -d /tmp/ndbg.XXXXXX); rmdir $W
 git -C /repo worktree add -q --detach $W HEAD
 git -C $W apply $2 || { git -C /repo worktree remove --force $W; exit 3; }
 O=$(mktemp -d /tmp/ndbgo.XXXXXX); cp /verif/known_findings.json /verif/baseline_funcs.txt $O/
-rm -rf /tmp/ndump; IPCHECK_DUMP=/tmp/ndump /verif/bin/ipcheck -property $1 -root $W -verif $O 2>&1 | grep -v "^VIOLATION" | grep -A3 "violated\|undecided\|anchor-lost\|vacuous" | cut -c1-600
+rm -rf /tmp/ndump; IPCHECK_DUMP=/tmp/ndump ${IPCHECK:-/verif/bin/ipcheck} -property $1 -root $W -verif $O 2>&1 | grep -v "^VIOLATION" | grep -A3 "violated\|undecided\|anchor-lost\|vacuous" | cut -c1-600
 python3 -c "
 import json
 e=json.load(open('$O/evidence/$1.json'))
